@@ -29,6 +29,10 @@ func transportRoles(p *Prog) (owner, reader *ssa.Function) {
 					}
 				}
 			}
+			// `defer close(t.closed)` without a closure
+			if b, ok := d.Call.Value.(*ssa.Builtin); ok && b.Name() == "close" && len(d.Call.Args) == 1 && chanProv(d.Call.Args[0], 0) == "field:transport.closed" {
+				owner = fn
+			}
 		})
 	}
 	if owner != nil {
@@ -178,8 +182,14 @@ func checkC12(r *Run) {
 		if !ok || d.Block().Index != 0 {
 			return
 		}
+		var dcs []ChanCase
 		if mc, ok := d.Call.Value.(*ssa.MakeClosure); ok {
-			for _, cs := range closeSites(mc.Fn.(*ssa.Function)) {
+			dcs = closeSites(mc.Fn.(*ssa.Function))
+		} else if b, ok := d.Call.Value.(*ssa.Builtin); ok && b.Name() == "close" && len(d.Call.Args) == 1 {
+			dcs = []ChanCase{{Prov: chanProv(d.Call.Args[0], 0), Chan: d.Call.Args[0]}}
+		}
+		{
+			for _, cs := range dcs {
 				if cs.Prov == "field:transport.closed" {
 					// nothing that can exit precedes the defer
 					okOwnerDefer = true
@@ -228,7 +238,19 @@ func checkC12(r *Run) {
 			case "field:transport.closed":
 				nCl++
 				// only in the deferred closure of the owner (runs once: handle is started once by newTransport)
-				r.Check(fn.Parent() == owner, "close-once", fnName(fn)+": close(transport.closed) only in the owner's deferred closure", fn.Pos(), "transport.closed closed outside the owner loop's exit")
+				okSite := fn.Parent() == owner
+				if fn == owner {
+					// the owner's own `defer close(t.closed)`: a deferred call, not a plain one
+					okSite = true
+					eachInstr(fn, func(in ssa.Instruction) {
+						if c, isCall := in.(*ssa.Call); isCall {
+							if b, isB := c.Call.Value.(*ssa.Builtin); isB && b.Name() == "close" && chanProv(c.Call.Args[0], 0) == "field:transport.closed" {
+								okSite = false
+							}
+						}
+					})
+				}
+				r.Check(okSite, "close-once", fnName(fn)+": close(transport.closed) only in the owner's deferred closure", fn.Pos(), "transport.closed closed outside the owner loop's exit")
 			}
 		}
 		for _, op := range chanOps(fn) {
@@ -266,6 +288,11 @@ func checkC12(r *Run) {
 	// every request written afterwards (slice bounds in maybeTruncate)
 	if mt := p.Fn("p9p:(*channel).maybeTruncate"); mt != nil {
 		c02Truncate(r, mt)
+	}
+	// … and the size of the read buffer (SetMSize with whatever msize the peer answered must not panic, and must keep
+	// len(rdbuf) == msize)
+	if sm, nc := p.Fn("p9p:(*channel).SetMSize"), p.Fn("p9p:newChannel"); sm != nil && nc != nil {
+		c10BufferInvariant(r, sm, nc)
 	}
 
 	c12WriteFailure(r, p, owner)
@@ -483,7 +510,21 @@ func ioDeadlineArmed(r *Run, rule string) {
 			continue
 		}
 		as := arms(fn, spec.kind)
-		for _, io := range findCalls(fn, spec.io...) {
+		ios := findCalls(fn, spec.io...)
+		// the I/O may sit in a helper of the channel (`ch.writeframe(p)`): the helper call is the I/O step, counted
+		// once per I/O call inside it
+		eachInstr(fn, func(in ssa.Instruction) {
+			c, ok := in.(*ssa.Call)
+			if !ok {
+				return
+			}
+			if g := staticCallee(&c.Call); g != nil && g.Blocks != nil && g.Pkg == fn.Pkg && g != fn {
+				for range findCalls(g, spec.io...) {
+					ios = append(ios, c)
+				}
+			}
+		})
+		for _, io := range ios {
 			n++
 			ok := false
 			for _, a := range as {
